@@ -187,6 +187,11 @@ func VerifyYouVersionState(prev, curr *types.Header) (err error) {
 			isValid = isValid &&
 				(curr.NextApprovals == prev.NextApprovals ||
 					curr.NextApprovals == prev.NextApprovals+1)
+			if curr.NextApprovals == prev.NextApprovals+1 {
+				// an approval counts only inside the voting window.  The window test above is skipped as soon as
+				// curr.NextApprovals reaches the threshold, so the very approval that reaches it was never window-checked.
+				isValid = isValid && currentRound < prev.NextVoteBefore
+			}
 			isValid = isValid && curr.NextSwitchOn == prev.NextSwitchOn
 		}
 	} else {
